@@ -41,6 +41,19 @@ Theorem C03_location_options_select : forall (cfg : config V) first use x,
   use_locations V cfg first = OK use -> (In x use <-> loc_selected V cfg first x).
 Proof. exact (use_locations_spec V). Qed.
 
+(* a range option constrains only when it is given: -latrange alone keeps a station whatever its longitude (the
+   pinned code applied -180..180 to the longitude then and silently dropped stations of files using 0..360) *)
+Theorem C03_latrange_alone_selects_by_latitude_only : forall (cfg : config V) first use x a b,
+  c_lat cfg = Some (a, b) -> c_lon cfg = None -> c_locs cfg = None -> c_elev cfg = None -> c_locs_x cfg = None ->
+  use_locations V cfg first = OK use ->
+  (In x use <-> exists s, In s (i_locs first) /\ l_id s = x /\ a <= l_lat s <= b).
+Proof. exact (latrange_alone V). Qed.
+Theorem C03_lonrange_alone_selects_by_longitude_only : forall (cfg : config V) first use x a b,
+  c_lat cfg = None -> c_lon cfg = Some (a, b) -> c_locs cfg = None -> c_elev cfg = None -> c_locs_x cfg = None ->
+  use_locations V cfg first = OK use ->
+  (In x use <-> exists s, In s (i_locs first) /\ l_id s = x /\ a <= l_lon s <= b).
+Proof. exact (lonrange_alone V). Qed.
+
 (* (b) ascending order, no duplicates *)
 Theorem C03_dimensions_strictly_ascending : forall (cfg : config V) ins d,
   mk_data V cfg ins = OK d ->
